@@ -320,7 +320,8 @@ def run(ctx):
                 continue
             s = cnd.strip()
             if blk.succs and blk.succs[0] is not None and (blk.succs[0] == b):
-                if s.k == 'un' and s.op == '!' and (s.args[0].var or '').startswith('L:j'):
+                from qv.lib import branch_zero_test as _bz
+                if _bz(cnd, True, lambda v: (v.var or '')[:2] == 'L:') == 'zero':
                     found.add('j==0')
                 if s.k == 'bin' and s.op == '==' and s.args[1].const == ord('.'):
                     found.add('dot')
